@@ -294,6 +294,78 @@ def a_first(ev, st, info, args):
     return outs
 
 
+def _const_arg(info, i):
+    a = info.get('rargs') or info.get('targs') or []
+    if i < len(a):
+        t = a[i]
+        name = t[1] if t[0] == 'path' else None
+        if name is not None and name.isdigit():
+            return int(name)
+    return None
+
+
+@ax('core::slice::<impl [T]>::split_first_chunk', note='split_first_chunk::<N>: Some((first N, rest)) iff len >= N; total')
+def a_split_first_chunk(ev, st, info, args):
+    seq = content(args[0])
+    n = _const_arg(info, 1)
+    if n is None:
+        return [(st, ('opaque', 'split_first_chunk with unknown N'))]
+    outs = []
+    for s2, val in fork_bool(st, T.cmp('Ge', T.mk_len(seq), I(n))):
+        outs.append((s2, some(('tuple', (T.mk_slice(seq, I(0), I(n)), T.mk_slice(seq, I(n), T.mk_len(seq))))) if val else NONE))
+    return outs
+
+
+@ax('core::slice::<impl [T]>::first_chunk', note='first_chunk::<N>: Some(first N) iff len >= N; total')
+def a_first_chunk(ev, st, info, args):
+    seq = content(args[0])
+    n = _const_arg(info, 1)
+    if n is None:
+        return [(st, ('opaque', 'first_chunk with unknown N'))]
+    outs = []
+    for s2, val in fork_bool(st, T.cmp('Ge', T.mk_len(seq), I(n))):
+        outs.append((s2, some(T.mk_slice(seq, I(0), I(n))) if val else NONE))
+    return outs
+
+
+@ax('core::slice::<impl [T]>::split_first', note='split_first: Some((first, rest)) iff non-empty; total')
+def a_split_first(ev, st, info, args):
+    seq = content(args[0])
+    outs = []
+    for s2, val in fork_bool(st, T.cmp('Ge', T.mk_len(seq), I(1))):
+        outs.append((s2, some(('tuple', (T.mk_at(seq, I(0)), T.mk_slice(seq, I(1), T.mk_len(seq))))) if val else NONE))
+    return outs
+
+
+@ax('core::slice::<impl [T]>::last', note='last(): Some(s[len-1]) iff non-empty; total')
+def a_last(ev, st, info, args):
+    seq = content(args[0])
+    outs = []
+    for s2, val in fork_bool(st, T.cmp('Ge', T.mk_len(seq), I(1))):
+        outs.append((s2, some(T.mk_at(seq, T.sub(T.mk_len(seq), I(1)))) if val else NONE))
+    return outs
+
+
+@ax('<T as std::convert::TryInto<U>>::try_into', 'std::convert::TryInto::try_into', note='TryInto is TryFrom of the target type')
+def a_try_into(ev, st, info, args):
+    ra = info.get('rargs') or info.get('targs') or []
+    if len(ra) >= 2:
+        src, dst = ra[0], ra[1]
+        d = tys.strip_refs(dst)
+        if d[0] == 'array' and d[2].isdigit():
+            # &[T] -> [T; N] / &[T; N]: Ok(the same elements) iff len == N
+            seq = content(args[0])
+            n = int(d[2])
+            outs = []
+            for s2, val in fork_bool(st, T.eq0(T.sub(T.mk_len(seq), I(n)))):
+                outs.append((s2, ok(T.mk_slice(seq, I(0), I(n))) if val else err(('call', 'try_from_slice_error', ()))))
+            return outs
+        s_, d_ = tys.show(src), tys.show(dst)
+        if s_ in solver.INT_RANGES and d_ in solver.INT_RANGES:
+            return try_from_int(ev, st, info, args, d_)
+    return [(st, ('opaque', 'try_into between unknown types'))]
+
+
 @ax('core::slice::<impl [T]>::split_at', 'core::str::<impl str>::split_at', note='split_at(mid) panics unless mid <= len')
 def a_split_at(ev, st, info, args):
     seq = content(args[0])
@@ -806,6 +878,281 @@ def a_filter(ev, st, info, args):
         for s3, cond in ev.apply_closure(args[1], [v], s2, info['fr'], info['site']):
             for s4, b in fork_bool(s3, cond):
                 outs.append((s4, some(v) if b else NONE))
+    return outs
+
+
+@ax('<std::vec::Vec<T, A> as std::ops::DerefMut>::deref_mut', 'std::vec::Vec::<T, A>::as_mut_slice', 'std::array::<impl [T; N]>::as_mut_slice',
+    '<[T] as std::convert::AsMut<[T]>>::as_mut', '<std::vec::Vec<T, A> as std::convert::AsMut<[T]>>::as_mut',
+    note='mutable view of the same storage; total')
+def a_deref_mut(ev, st, info, args):
+    return [(st, args[0])]
+
+
+@ax('std::ops::Fn::call', 'std::ops::FnMut::call_mut', 'std::ops::FnOnce::call_once', note='calling a closure / fn item value applies its body')
+def a_fn_call(ev, st, info, args):
+    f = args[0]
+    if f[0] == 'ref':
+        f = ev.deref(f, st)
+    tup = args[1] if len(args) > 1 else T.UNIT
+    actual = list(tup[1]) if tup[0] == 'tuple' else [tup]
+    if f[0] in ('fn', 'closure'):
+        return ev.apply_closure(f, actual, st, info['fr'], info['site'])
+    return [(st, ('opaque', 'call of an unknown function value'))]
+
+
+def _apply1(ev, st, info, f, x):
+    return ev.apply_closure(f, [x], st, info['fr'], info['site'])
+
+
+def _apply0(ev, st, info, f):
+    return ev.apply_closure(f, [], st, info['fr'], info['site'])
+
+
+@ax('std::option::Option::<T>::map_or', note='map_or(d, f): Some(v) -> f(v), None -> d; total if f is')
+def a_opt_map_or(ev, st, info, args):
+    outs = []
+    for s2, var, get in fork_enum(st, args[0], 'Option', ['Some', 'None']):
+        if var == 'None':
+            outs.append((s2, args[1]))
+        else:
+            outs.extend(_apply1(ev, s2, info, args[2], get('0')))
+    return outs
+
+
+@ax('std::option::Option::<T>::map_or_else', note='map_or_else(d, f): Some(v) -> f(v), None -> d(); total if d, f are')
+def a_opt_map_or_else(ev, st, info, args):
+    outs = []
+    for s2, var, get in fork_enum(st, args[0], 'Option', ['Some', 'None']):
+        if var == 'None':
+            outs.extend(_apply0(ev, s2, info, args[1]))
+        else:
+            outs.extend(_apply1(ev, s2, info, args[2], get('0')))
+    return outs
+
+
+@ax('std::option::Option::<T>::and_then', note='and_then(f) on Option; total if f is')
+def a_opt_and_then(ev, st, info, args):
+    outs = []
+    for s2, var, get in fork_enum(st, args[0], 'Option', ['Some', 'None']):
+        if var == 'None':
+            outs.append((s2, NONE))
+        else:
+            outs.extend(_apply1(ev, s2, info, args[1], get('0')))
+    return outs
+
+
+@ax('std::option::Option::<T>::or_else', note='or_else(f) on Option; total if f is')
+def a_opt_or_else(ev, st, info, args):
+    outs = []
+    for s2, var, get in fork_enum(st, args[0], 'Option', ['Some', 'None']):
+        if var == 'Some':
+            outs.append((s2, some(get('0'))))
+        else:
+            outs.extend(_apply0(ev, s2, info, args[1]))
+    return outs
+
+
+@ax('std::option::Option::<T>::or', note='or(b) on Option; total')
+def a_opt_or(ev, st, info, args):
+    outs = []
+    for s2, var, get in fork_enum(st, args[0], 'Option', ['Some', 'None']):
+        outs.append((s2, some(get('0')) if var == 'Some' else args[1]))
+    return outs
+
+
+@ax('std::option::Option::<T>::ok_or_else', note='ok_or_else(f): Some(v) -> Ok(v), None -> Err(f()); total if f is')
+def a_ok_or_else(ev, st, info, args):
+    outs = []
+    for s2, var, get in fork_enum(st, args[0], 'Option', ['Some', 'None']):
+        if var == 'Some':
+            outs.append((s2, ok(get('0'))))
+        else:
+            for s3, e in _apply0(ev, s2, info, args[1]):
+                outs.append((s3, err(e)))
+    return outs
+
+
+@ax('std::option::Option::<T>::unwrap_or_else', note='unwrap_or_else(f) on Option; total if f is')
+def a_opt_unwrap_or_else(ev, st, info, args):
+    outs = []
+    for s2, var, get in fork_enum(st, args[0], 'Option', ['Some', 'None']):
+        if var == 'Some':
+            outs.append((s2, get('0')))
+        else:
+            outs.extend(_apply0(ev, s2, info, args[1]))
+    return outs
+
+
+@ax('std::option::Option::<T>::is_some_and', note='is_some_and(f); total if f is')
+def a_is_some_and(ev, st, info, args):
+    outs = []
+    for s2, var, get in fork_enum(st, args[0], 'Option', ['Some', 'None']):
+        if var == 'None':
+            outs.append((s2, T.FALSE))
+        else:
+            outs.extend(_apply1(ev, s2, info, args[1], get('0')))
+    return outs
+
+
+@ax('std::option::Option::<T>::is_none_or', note='is_none_or(f); total if f is')
+def a_is_none_or(ev, st, info, args):
+    outs = []
+    for s2, var, get in fork_enum(st, args[0], 'Option', ['Some', 'None']):
+        if var == 'None':
+            outs.append((s2, T.TRUE))
+        else:
+            outs.extend(_apply1(ev, s2, info, args[1], get('0')))
+    return outs
+
+
+@ax('std::option::Option::<&T>::copied', 'std::option::Option::<&T>::cloned', 'std::option::Option::<&mut T>::copied', note='copied/cloned on Option<&T>; total')
+def a_opt_copied(ev, st, info, args):
+    return [(st, args[0])]
+
+
+@ax('std::result::Result::<T, E>::and_then', note='and_then(f) on Result; total if f is')
+def a_res_and_then(ev, st, info, args):
+    outs = []
+    for s2, var, get in fork_enum(st, args[0], 'Result', ['Ok', 'Err']):
+        if var == 'Err':
+            outs.append((s2, err(get('0'))))
+        else:
+            outs.extend(_apply1(ev, s2, info, args[1], get('0')))
+    return outs
+
+
+@ax('std::result::Result::<T, E>::or_else', note='or_else(f) on Result; total if f is')
+def a_res_or_else(ev, st, info, args):
+    outs = []
+    for s2, var, get in fork_enum(st, args[0], 'Result', ['Ok', 'Err']):
+        if var == 'Ok':
+            outs.append((s2, ok(get('0'))))
+        else:
+            outs.extend(_apply1(ev, s2, info, args[1], get('0')))
+    return outs
+
+
+@ax('std::result::Result::<T, E>::map_or', note='map_or(d, f) on Result; total if f is')
+def a_res_map_or(ev, st, info, args):
+    outs = []
+    for s2, var, get in fork_enum(st, args[0], 'Result', ['Ok', 'Err']):
+        if var == 'Err':
+            outs.append((s2, args[1]))
+        else:
+            outs.extend(_apply1(ev, s2, info, args[2], get('0')))
+    return outs
+
+
+@ax('std::result::Result::<T, E>::map_or_else', note='map_or_else(d, f) on Result; total if d, f are')
+def a_res_map_or_else(ev, st, info, args):
+    outs = []
+    for s2, var, get in fork_enum(st, args[0], 'Result', ['Ok', 'Err']):
+        if var == 'Err':
+            outs.extend(_apply1(ev, s2, info, args[1], get('0')))
+        else:
+            outs.extend(_apply1(ev, s2, info, args[2], get('0')))
+    return outs
+
+
+@ax('std::result::Result::<T, E>::unwrap_or', note='unwrap_or on Result; total')
+def a_res_unwrap_or(ev, st, info, args):
+    outs = []
+    for s2, var, get in fork_enum(st, args[0], 'Result', ['Ok', 'Err']):
+        outs.append((s2, get('0') if var == 'Ok' else args[1]))
+    return outs
+
+
+@ax('std::result::Result::<T, E>::unwrap_or_else', note='unwrap_or_else(f) on Result; total if f is')
+def a_res_unwrap_or_else(ev, st, info, args):
+    outs = []
+    for s2, var, get in fork_enum(st, args[0], 'Result', ['Ok', 'Err']):
+        if var == 'Ok':
+            outs.append((s2, get('0')))
+        else:
+            outs.extend(_apply1(ev, s2, info, args[1], get('0')))
+    return outs
+
+
+@ax('std::result::Result::<T, E>::as_ref', 'std::result::Result::<T, E>::as_deref', note='as_ref on Result: a view of the same value; total')
+def a_res_as_ref(ev, st, info, args):
+    return [(st, args[0])]
+
+
+@ax('std::result::Result::<T, E>::err', note='err(): Err(e) -> Some(e), Ok -> None; total')
+def a_res_err(ev, st, info, args):
+    outs = []
+    for s2, var, get in fork_enum(st, args[0], 'Result', ['Ok', 'Err']):
+        outs.append((s2, some(get('0')) if var == 'Err' else NONE))
+    return outs
+
+
+@ax('core::bool::<impl bool>::then_some', 'std::bool::<impl bool>::then_some', note='then_some(x): Some(x) if true else None; total')
+def a_then_some(ev, st, info, args):
+    outs = []
+    for s2, val in fork_bool(st, args[0]):
+        outs.append((s2, some(args[1]) if val else NONE))
+    return outs
+
+
+@ax('core::bool::<impl bool>::then', 'std::bool::<impl bool>::then', note='then(f): Some(f()) if true else None; total if f is')
+def a_then(ev, st, info, args):
+    outs = []
+    for s2, val in fork_bool(st, args[0]):
+        if not val:
+            outs.append((s2, NONE))
+        else:
+            for s3, v in _apply0(ev, s2, info, args[1]):
+                outs.append((s3, some(v)))
+    return outs
+
+
+@ax('std::mem::drop', 'core::mem::drop', note='drop; total (no Drop impl with effects in this crate)')
+def a_drop(ev, st, info, args):
+    return [(st, T.UNIT)]
+
+
+@ax('std::iter::Iterator::try_for_each', note='try_for_each(f): applies f to each item in order, stops at the first Err; analysed as a loop (widening) over the '
+    'locations f captures by mutable reference')
+def a_try_for_each(ev, st, info, args):
+    it, f = args[0], args[1]
+    if it[0] == 'ref':
+        it = ev.deref(it, st)
+    if f[0] != 'closure':
+        return [(st, ('opaque', 'try_for_each with a non-closure function'))]
+    caps = [c for c in f[2] if c[0] == 'ref']
+    site = info['site']['span']
+    iloc = ('X', 'iter', site)
+    entry = st.copy()
+    entry.store[iloc] = it
+    W = st.copy()
+    name = '%s#try_for_each' % info['site']['fn']
+    mu_it = ('mu', name + '#iter')
+    W.store[iloc] = mu_it
+    for k, c in enumerate(caps):
+        cur = ev.deref(c, W)
+        ev.store_at(info['fr'], c[1], c[2], ev.widen_term(cur, [('opaque', 'changed')], '%s#cap%d' % (name, k)), W)
+    item = ('call', 'iter_item', (mu_it,))
+    has = ('call', 'iter_has_next', (mu_it,))
+    outs, backs = [], []
+    # exit: no further item
+    for s2, val in fork_bool(W.copy(), has):
+        if not val:
+            s2.store.pop(iloc, None)
+            outs.append((s2, ok(T.UNIT)))
+        else:
+            for s3, r in ev.apply_closure(f, [item], s2, info['fr'], info['site']):
+                for s4, var, get in fork_enum(s3, r, 'Result', ['Ok', 'Err']):
+                    if var == 'Ok':
+                        b = s4.copy()
+                        b.store[iloc] = ('call', 'iter_advance', (mu_it,))
+                        backs.append(b)
+                    else:
+                        s4.store.pop(iloc, None)
+                        outs.append((s4, err(get('0'))))
+    ev.loops.append({'fn': info['site']['fn'], 'header': 'try_for_each@' + site, 'fid': info['fr'].fid, 'entry': entry, 'widened': W, 'backs': backs,
+                     'exits': outs, 'body': []})
+    for b in backs:
+        ev.extra_obls.extend(b.obls[len(W.obls):])
     return outs
 
 
